@@ -89,7 +89,10 @@ func c13IngestFacts(l *leanFile) {
 	// --- the test ------------------------------------------------------------------------------------------------
 	// `if sz := <x>.WritableSize(); L > 0 && sz > L { return error }` (either order of the conjuncts, > or >=, sz bound in the Init or before)
 	rejects, tests := false, 0
+	var sizeTest *ast.IfStmt
+	var sizeTestFn *ast.FuncDecl
 	for _, fd := range all {
+		fd := fd
 		ast.Inspect(fd.Body, func(n ast.Node) bool {
 			is, ok := n.(*ast.IfStmt)
 			if !ok {
@@ -124,6 +127,7 @@ func c13IngestFacts(l *leanFile) {
 				return true
 			}
 			tests++
+			sizeTest, sizeTestFn = is, fd
 			above := (c13Src(cmp.X) == sizeVar && c13Src(cmp.Y) == limit && (cmp.Op == token.GTR || cmp.Op == token.GEQ)) ||
 				(c13Src(cmp.Y) == sizeVar && c13Src(cmp.X) == limit && (cmp.Op == token.LSS || cmp.Op == token.LEQ))
 			leaves := false
@@ -143,6 +147,74 @@ func c13IngestFacts(l *leanFile) {
 	}
 	l.p("/-- the validation loop of the write packet refuses an event whose record size is above the limit -/")
 	l.p("def ingestSizeTestRejectsAbove : Bool := %s", leanBool(rejects && tests == 1))
+
+	// --- the test is applied to EVERY event of the packet ----------------------------------------------------------------
+	// the size test is a statement of the body of the loop over the packet's events itself (not inside a conditional), and no
+	// statement before it in that body can skip it for some events: no continue / goto, no break out of the loop (an early
+	// `return <error>` refuses the whole packet and is fine)
+	every := false
+	if tests == 1 && sizeTest != nil {
+		var loopBody *ast.BlockStmt
+		c13WalkPath(sizeTestFn.Body, func(path []ast.Node) {
+			if path[len(path)-1] != ast.Node(sizeTest) {
+				return
+			}
+			// the innermost enclosing loop
+			for i := len(path) - 2; i >= 0; i-- {
+				switch l := path[i].(type) {
+				case *ast.ForStmt:
+					if loopBody == nil {
+						loopBody = l.Body
+					}
+				case *ast.RangeStmt:
+					if loopBody == nil {
+						loopBody = l.Body
+					}
+				}
+			}
+		})
+		if loopBody == nil {
+			problem("api/rpc %s: the record size test is not inside a loop over the packet's events — the fact ingestSizeTestOnEveryEvent cannot be read", sizeTestFn.Name.Name)
+		} else {
+			direct, skips := false, false
+			for _, st := range loopBody.List {
+				if st == ast.Stmt(sizeTest) {
+					direct = true
+					break
+				}
+				depth := 0 // nesting in inner loops / switches / selects, where a break is local
+				var insp func(n ast.Node) bool
+				insp = func(n ast.Node) bool {
+					switch b := n.(type) {
+					case *ast.ForStmt, *ast.RangeStmt, *ast.SwitchStmt, *ast.TypeSwitchStmt, *ast.SelectStmt:
+						depth++
+						ast.Inspect(childBody(n), insp)
+						depth--
+						return false
+					case *ast.FuncLit:
+						return false
+					case *ast.BranchStmt:
+						switch b.Tok {
+						case token.CONTINUE, token.GOTO:
+							if depth == 0 || b.Label != nil || b.Tok == token.GOTO {
+								skips = true
+							}
+						case token.BREAK:
+							if depth == 0 || b.Label != nil {
+								skips = true
+							}
+						}
+					}
+					return true
+				}
+				ast.Inspect(st, insp)
+			}
+			every = direct && !skips
+		}
+	}
+	l.p("/-- the record size test is a statement of the validation loop's body itself and nothing before it in that body (continue, goto,")
+	l.p("break) lets an event of the packet pass without it -/")
+	l.p("def ingestSizeTestOnEveryEvent : Bool := %s", leanBool(every))
 
 	// --- handlers: decoded strings vs the life of the request buffer -----------------------------------------------
 	type hnd struct {
@@ -265,4 +337,21 @@ func c13IngestFacts(l *leanFile) {
 	l.p("/-- the server handlers of api/rpc: (name, decodes the body with newBuf = false — its strings point into the body —, gives the body")
 	l.p("back to the buffer pool) -/")
 	l.p("def rpcHandlers : List (String × Bool × Bool) := [%s]", strings.Join(items, ", "))
+}
+
+// childBody: the body of a loop / switch / select statement
+func childBody(n ast.Node) ast.Node {
+	switch b := n.(type) {
+	case *ast.ForStmt:
+		return b.Body
+	case *ast.RangeStmt:
+		return b.Body
+	case *ast.SwitchStmt:
+		return b.Body
+	case *ast.TypeSwitchStmt:
+		return b.Body
+	case *ast.SelectStmt:
+		return b.Body
+	}
+	return n
 }
